@@ -9,6 +9,7 @@ import (
 	_ "embed"
 	"encoding/json"
 	"fmt"
+	"math/big"
 	"time"
 
 	dsig "github.com/russellhaering/goxmldsig"
@@ -116,6 +117,21 @@ type CustomStore struct {
 }
 
 func (c *CustomStore) GetKeyPair() (*rsa.PrivateKey, []byte, error) { return c.Key, c.Cert, c.Err }
+
+// NewBareCustomStore is NewCustomStore with a private key assembled from its bare components (N, E, D, primes)
+// — what a JWK import or a hand-built struct gives: no precomputed CRT values. A fresh key object per call, so
+// that nothing one service provider does to it shows on another.
+func NewBareCustomStore(c CertRef) *CustomStore {
+	k := K(c.Key)
+	if k.RSA == nil {
+		panic("custom store needs an RSA key")
+	}
+	bare := &rsa.PrivateKey{PublicKey: rsa.PublicKey{N: new(big.Int).Set(k.RSA.N), E: k.RSA.E}, D: new(big.Int).Set(k.RSA.D)}
+	for _, p := range k.RSA.Primes {
+		bare.Primes = append(bare.Primes, new(big.Int).Set(p))
+	}
+	return &CustomStore{Key: bare, Cert: c.DER()}
+}
 
 func NewCustomStore(c CertRef) *CustomStore {
 	k := K(c.Key)
